@@ -30,6 +30,37 @@ def run(chk, facts, info):
              'itself or a core module assigns it; otherwise its output depends on the target that was assembled before '
              '(another file, or an earlier CPU statement)', min_instances=900)
     foreign_scratch_rule(chk, facts.program('asl'), 'C18-R4', min_instances=900)
+    chk.rule('C18-R5', 'the active target is switched off (its SwitchFrom procedure runs, which is where targets report '
+             'what they can only know at the end of the source: open execute packets, missing LTORG) inside the '
+             'end-of-pass phase of the file it belongs to: every path through each PASS_EXIT root that ends the pass '
+             'reaches the indirect call through SwitchFrom before the pass\'s error accounting is closed', min_instances=1)
+    P = facts.program('asl')
+    ph = asl_phases(facts, P)
+    swf = {f for f in P.all_funcs() for b, i, ln, n in f.nodes()
+           if n[0] == 'call' and isinstance(n[1], (list, tuple)) and strip(n[1]) == ('g', 'SwitchFrom')}
+    if not swf:
+        raise AnalysisBroken('no indirect call through SwitchFrom found')
+    ex = facts.func('as.c', 'AssembleFile_ExitPass')
+    if ex not in ph['PASS_EXIT']:
+        raise AnalysisBroken('AssembleFile_ExitPass is no longer part of the end-of-pass phase')
+
+    def switches_off(e):
+        for m in walk_own(e):
+            if m[0] == 'call' and callee_name(m):
+                g = P.resolve(ex.unit, callee_name(m))
+                if g is not None and (g in swf or swf & P.closure([g])):
+                    return True
+        return False
+    ok, w = ex.must_pass(ex.entry, -1, switches_off)
+    # ... and before the error accounting of the pass is closed
+    ok2 = True
+    for b, i, ln, n in ex.calls('AsmErrPassExit'):
+        ok2 = ok2 and ex.guarded(b, i, lambda l: False, switches_off)[0]
+    chk.ob('C18-R5', 'as.c:AssembleFile_ExitPass:SwitchFrom', ok and ok2, ex.loc(),
+           'target switched off at the end of the pass, before AsmErrPassExit()' if ok and ok2 else
+           'the end-of-pass phase %s: diagnostics a target raises when it is switched off appear in the next pass or '
+           'the next file (wrong -E log, error count already reset), and a listing that is not open yet is written to' %
+           ('does not run the target\'s SwitchFrom on path ' + ' '.join(w[-4:]) if not ok else 'closes the error accounting first'))
     chk.note('Decided: reset completeness of core state, target interface exhaustiveness of all CPU switch functions, '
              'reset of registered per-target state. Not decided: equality of outputs for concrete file pairs; private '
              'statics of code generators beyond the registered ones.')
